@@ -485,6 +485,18 @@ func runEnc(c *eng.Ctx, cf cfg) {
 								}
 							}
 							pt := rlwe.NewPlaintext(params, level)
+							// a plaintext obtained indirectly: allocated at the maximum level (rows above `level` hold residues of
+							// something else) and brought down with Resize, as a receiver that is recycled for a lower-level message;
+							// it is then encrypted into a receiver that is still at the maximum level
+							relevelled := level < params.MaxLevel() && rnd.N(4) == 0
+							if relevelled {
+								pt = rlwe.NewPlaintext(params, params.MaxLevel())
+								for i := range pt.Value.Coeffs {
+									copy(pt.Value.Coeffs[i], gen.Vec(rnd, n, params.RingQ().SubRings[i].Modulus-1, gen.PatUniform, 0))
+								}
+								pt.Resize(0, level)
+								c.Count("encryptions_of_relevelled_plaintexts", 1)
+							}
 							pt.IsNTT, pt.IsMontgomery = isNTT, isMont
 							// store the message in the representation the flags announce
 							val := rq.NewPoly()
@@ -505,6 +517,9 @@ func runEnc(c *eng.Ctx, cf cfg) {
 							key3 := fmt.Sprintf("enc/%s/%d/%v/%v/%s/%s/%d/%s/%s/%d/%v/%v", cf.Ring, cf.LogN, cf.QBits, cf.PBits, cf.Xs, cf.Xe, level, keyType, v.name, degree, isNTT, isMont)
 							c.Distinct(key3, !(level == params.MaxLevel() && keyType == "sk" && v.name == "plain" && degree == 1 && isNTT && !isMont))
 							ct := rlwe.NewCiphertext(params, degree, level)
+							if relevelled {
+								ct = rlwe.NewCiphertext(params, degree, params.MaxLevel())
+							}
 							if rnd.N(3) == 0 {
 								// reused receiver: it still holds an unrelated ciphertext (uniform residues, other flags)
 								for k := range ct.Value {
@@ -530,7 +545,13 @@ func runEnc(c *eng.Ctx, cf cfg) {
 								c.Violate(sigBase+"|error-on-admissible", encErr.Error(), cf)
 								continue
 							}
-							c.Check(pt.Equal(ptCopy), sigBase+"|plaintext-modified", nil)
+							if !c.Check(ct.Level() == level, sigBase+"|ciphertext-level", func() string {
+								return fmt.Sprintf("ciphertext at level %d, plaintext at level %d (relevelled=%v)", ct.Level(), level, relevelled)
+							}) {
+								continue
+							}
+							// (a re-levelled plaintext keeps a pt.Value header with the rows of its first life: the element is what is compared)
+							c.Check(pt.Element.Equal(&ptCopy.Element), sigBase+"|plaintext-modified", nil)
 							c.Check(ct.MetaData.Equal(&ptMeta), sigBase+"|ciphertext-metadata", func() string {
 								return fmt.Sprintf("ct=%+v pt=%+v", *ct.MetaData, ptMeta)
 							})
